@@ -4,11 +4,11 @@
 From TP Require Import PSpec.
 
 Definition cexb_cfg : config :=
-  {| cf_size := Fin 1; cf_kind := KTask; cf_bad := false; cf_w := default_w;
+  {| cf_size := Fin 1; cf_kind := KTask; cf_bad := []; cf_w := default_w;
      cf_ecb := CbNone; cf_ccb := CbNone |}.
 
 Definition cexb_y : mtask :=
-  mk_mtask MApply (GUser 0) 1 false [] default_w CbNone CbNone MWaitMap 0 (Some FPending)
+  mk_mtask MApply (GUser 0) 1 [] [] default_w CbNone CbNone MWaitMap 0 (Some FPending)
            false None 0 false 0 false 0.
 
 Definition cexb_s : state :=
